@@ -7,7 +7,18 @@ cp $src/demo.py $v/demo.py
 cd $v
 if ! git apply --index $src/patch.diff 2>/tmp/apply.err; then echo "PATCH DOES NOT APPLY"; cat /tmp/apply.err; fi
 git diff --cached --stat | tail -1
-tests=$(PYTHONPATH=$v/src /venv/bin/python -m pytest -q -p no:cacheprovider --timeout=900 2>&1 | tail -1)
+PYTHONPATH=$v/src /venv/bin/python -m pytest -q -rf -p no:cacheprovider --timeout=900 > /tmp/tests_$id.txt 2>&1
+tests=$(tail -1 /tmp/tests_$id.txt)
+if echo "$tests" | grep -q failed; then
+  # under machine load the @constexpr helper (1 s limit) times out: re-run the failing tests alone, up to 6 times
+  ids=$(grep "^FAILED " /tmp/tests_$id.txt | sed 's/^FAILED //; s/ - .*//')
+  for k in 1 2 3 4 5 6; do
+    again=$(PYTHONPATH=$v/src /venv/bin/python -m pytest -q -p no:cacheprovider --timeout=900 $ids 2>&1 | tail -1)
+    if ! echo "$again" | grep -q failed; then break; fi
+    sleep 20
+  done
+  tests="$tests; the failing tests re-run alone: $again"
+fi
 echo "tests with patch: $tests"
 PYTHONPATH=$v/src timeout 600 /venv/bin/python $v/demo.py > /tmp/demo_with.txt 2>&1; w=$?
 echo "demo with patch: exit=$w"; tail -3 /tmp/demo_with.txt | cut -c1-200
